@@ -1,5 +1,6 @@
 import GoguVerif.Go.Run
 import GoguVerif.Kinds.QueueStack
+import GoguVerif.Kinds.Heap
 /-!
 # The compiled driver
 
@@ -20,6 +21,7 @@ def kindOf (name : String) : Option Kind :=
   match name with
   | "queue" => some Kinds.Q.queueKind
   | "stack" => some Kinds.S.stackKind
+  | "heap" => some Kinds.Heap.kind
   | "lqueue" => some Kinds.Q.lqueueSpecOnly
   | "lstack" => some Kinds.S.lstackMonitor
   | _ => none
